@@ -281,7 +281,7 @@ func formatTestCase(result core.TestCase, name string, detailed bool) string {
 		return formatTestName(result, name) + " (No results)"
 	}
 	var outcome core.TestExecution
-	if len(result.Executions) > 1 && result.Success() != nil {
+	if result.Success() != nil && (len(result.Failures()) > 0 || len(result.Errors()) > 0) {
 		return fmt.Sprintf("%s ${BOLD_MAGENTA}%s${RESET}", formatTestName(result, name), "FLAKY PASS")
 	}
 
